@@ -14,6 +14,7 @@
 (*                                         dotted name the repr starts with   *)
 (*   [t |-> "enum", home, member]                                           *)
 (*   [t |-> "seq", kind, items]           kind in list/tuple                 *)
+(*   [t |-> "map", items]                 items: Seq(<<key, value>>)         *)
 (*   [t |-> "model", home, fields]        fields: Seq([name, v, dflt])       *)
 (*                                         dflt = a value or NoDefault        *)
 (***************************************************************************)
@@ -37,6 +38,8 @@ Render(v) ==
                         home |-> v.home, v |-> v]
     [] v.t = "seq"  -> [e |-> "seq", kind |-> IF SeqPolicy = "kind" THEN v.kind ELSE "list",
                         items |-> FoldLeft(LAMBDA acc, x : Append(acc, Render(x)), <<>>, v.items)]
+    \* a mapping: keys are rendered like any other object (a QName or an enum member as key needs its import too)
+    [] v.t = "map"  -> [e |-> "map", items |-> FoldLeft(LAMBDA acc, kv : Append(acc, <<Render(kv[1]), Render(kv[2])>>), <<>>, v.items)]
     [] v.t = "model" ->
          [e |-> "call", path |-> v.home.path, home |-> v.home,
           args |-> FoldLeft(LAMBDA acc, f : IF f.dflt # NoDefault /\ f.dflt = f.v THEN acc
@@ -50,6 +53,7 @@ Types(v) ==
   CASE v.t = "prim" -> {}
     [] v.t \in {"obj", "enum"} -> {v.home}
     [] v.t = "seq" -> UNION {Types(v.items[i]) : i \in DOMAIN v.items}
+    [] v.t = "map" -> UNION {Types(v.items[i][1]) \cup Types(v.items[i][2]) : i \in DOMAIN v.items}
     [] v.t = "model" -> {v.home} \cup UNION {IF v.fields[i].dflt # NoDefault /\ v.fields[i].dflt = v.fields[i].v THEN {} ELSE Types(v.fields[i].v) : i \in DOMAIN v.fields}
 Imports(v) == {[mod |-> h.mod, name |-> h.path[1]] : h \in {x \in Types(v) : x.mod # "builtins"}}
 
@@ -69,6 +73,10 @@ Eval(x, imports) ==
          LET parts == FoldLeft(LAMBDA acc, i : Append(acc, Eval(i, imports)), <<>>, x.items)
          IN IF \E k \in DOMAIN parts : ~parts[k].ok THEN [ok |-> FALSE, v |-> [t |-> "prim", v |-> "NameError"]]
             ELSE [ok |-> TRUE, v |-> [t |-> "seq", kind |-> x.kind, items |-> FoldLeft(LAMBDA acc, p : Append(acc, p.v), <<>>, parts)]]
+    [] x.e = "map"  ->
+         LET parts == FoldLeft(LAMBDA acc, kv : Append(acc, <<Eval(kv[1], imports), Eval(kv[2], imports)>>), <<>>, x.items)
+         IN IF \E k \in DOMAIN parts : ~parts[k][1].ok \/ ~parts[k][2].ok THEN [ok |-> FALSE, v |-> [t |-> "prim", v |-> "NameError"]]
+            ELSE [ok |-> TRUE, v |-> [t |-> "map", items |-> FoldLeft(LAMBDA acc, p : Append(acc, <<p[1].v, p[2].v>>), <<>>, parts)]]
     [] x.e = "call" ->
          IF ~Resolves(x.path, x.home, imports) THEN [ok |-> FALSE, v |-> [t |-> "prim", v |-> "NameError"]]
          ELSE LET given == FoldLeft(LAMBDA acc, a : Append(acc, [name |-> a.name, r |-> Eval(a.x, imports)]), <<>>, x.args)
